@@ -13,7 +13,10 @@ extern "C" __attribute__((noinline)) void verif_model_send(void*, osmium::memory
     Dump d{g_out + g_outlen, g_outcap - g_outlen}; d.buffer_exact(*b); g_outlen += d.len;
 }
 
-// events: 1 <discussion>, 2 <comment date uid user>, 3 <text>, 4 character data "xy", 5 <tag k v>, 6 end of the innermost open element.
+static const char* g_chars = nullptr;    // three bytes of character data supplied by the harness: piece A = [0,2), piece B = [2,3)
+ENTRY void verif_xml_chars(const char* c) { g_chars = c; }
+
+// events: 1 <discussion>, 2 <comment date uid user>, 3 <text>, 4 character data (two bytes), 7 character data (one byte), 5 <tag k v>, 6 end of the innermost open element.
 // The script runs inside <osm version="0.6"><changeset id="7" ...>; everything still open is closed at the end.
 // rc 0 ok, 1 xml_error / format error, 2 other std::exception, 3 non-std exception
 ENTRY int verif_xml_events(const unsigned char* ev, unsigned n, unsigned char* out, unsigned cap, unsigned* outlen) {
@@ -53,7 +56,8 @@ ENTRY int verif_xml_events(const unsigned char* ev, unsigned n, unsigned char* o
                 case 1: p->start_element("discussion", no_attrs); ++depth; break;
                 case 2: p->start_element("comment", comment_attrs); ++depth; break;
                 case 3: p->start_element("text", no_attrs); ++depth; break;
-                case 4: p->characters("xy", 2); break;
+                case 4: p->characters(g_chars ? g_chars : "xy", 2); break;
+                case 7: p->characters(g_chars ? g_chars + 2 : "z", 1); break;
                 case 5: p->start_element("tag", tag_attrs); ++depth; break;
                 default: if (depth > 0) { p->end_element("x"); --depth; } break;
             }
